@@ -2,7 +2,7 @@ PROP = dict(
     module="M3d.Props.C07",
     corr=dict(quick=400, thorough=3000),
     gen=["Kernels"],
-    tie_modules=["M3d.Lemmas.KernelsTieCollide"],
+    tie_modules=["M3d.Lemmas.KernelsTieCollide", "M3d.Lemmas.KernelsTieCollideQuery"],
     corr_theorems=(
         "obs2/obs3 lines print the verdict of M3d.Col.obsVerdict (the Boolean obsOk; M3d.C07.contract_obs: it is implied by "
         "the contract) on the observation of the real collider; rectx/rectb = rectCollider (M3d.C07.rect_hits), trix/trib = "
@@ -21,7 +21,23 @@ PROP = dict(
         "transformed_ball_touches_iff), tsphx/tcirc2x = the sqrt-free sphere/ball test of the image sphere/circle "
         "(transformed_ball_touches_iff_sphere, transformed_circle_touches_iff_circle2d, ball_touches_iff_sphere), containx = "
         "colliderContains over the brute-force joined collider (parity_inside_closed_mesh, parity_direction_independent: for "
-        "a closed mesh that parity is the parity along every general-position ray)"
+        "a closed mesh that parity is the parity along every general-position ray); rect2x = seg2RectSpec on some segment, "
+        "i.e. some segment of the 2-D mesh has a point in the closed box (rect_touches_iff_segment2d_spec; refused with "
+        "MODEL-NE-SPEC if the faithful model seg2Rect of Segment.RectCollision disagrees on a segment - "
+        "rect_touches_iff_segment2d - or, mode G, if the faithful model meshRect2 of the hierarchy with the bounds test of "
+        "joinedMultiCollider.RectCollision at every node disagrees - mesh_rect_touches_iff, rect_bounds_test_iff); tritrix = "
+        "triTri, the model of Triangle.TriangleCollisions, reports a segment (triangle_collisions_iff: the computed segment "
+        "is exactly the set of common points of the two triangles, nothing computed = at most one common point; "
+        "triangle_collisions_report: when nothing is returned; triangle_shared_edge_only); mtritrix = number of mesh "
+        "triangles for which triTri reports a segment (mesh_triangle_collisions: a hierarchy returns the concatenation of "
+        "its leaves' answers; mode G refuses MODEL-NE-SPEC if the faithful model meshTriTri of the hierarchy differs); "
+        "msegx / mseg2x = some triangle's Triangle.SegmentCollision (triSegment) / some segment's Segment.SegmentCollision "
+        "(seg2Segment) answers true (segment_touches_iff_triangle, segment_touches_iff_segment2d; mesh_segment_touches_iff, "
+        "mesh_segment_touches_iff_2d, segment_bounds_test_sound, joined_tree_any; mode G refuses MODEL-NE-SPEC if the "
+        "faithful hierarchy meshSegment3 / meshSegment2 with the rayCollisionWithBounds test at every node differs); "
+        "profballx = profBallSpec, the square-root-free form of profileCollider.SphereCollision (profile_ball_touches_iff, "
+        "profile_ball_touches_iff_mesh: the open ball meets a wall or a face of the extrusion; refused with MODEL-NE-SPEC if "
+        "the faithful model profSphere with the square root differs)"
     ),
     rule=(
         "every case is one ray (or ball/segment/box) against one collider built by the real constructors. obs: all collider "
@@ -39,14 +55,48 @@ PROP = dict(
         "the counter between-r-and-r*f^2 gives the cases whose answer changes when the radius is converted with the wrong "
         "direction of ApplyDistance. containx: ColliderContains with margins on dyadic box meshes, pairs of boxes, soups, "
         "origins on a 1/16-offset grid. bits kinds: arbitrary doubles incl. parallel and through-vertex rays, cones incl. "
-        "axis-aligned ones, rays through the apex and along the axis. distinct = distinct operation lines; #stat counters give "
+        "axis-aligned ones, rays through the apex and along the axis. trix/joinx also aim 2^-28..2^-36 (barycentric) next "
+        "to an edge of the triangle / next to the diagonal two triangles of a box mesh share (still exact). rect2x: 2-D "
+        "meshes with straight axis-aligned runs - outlines of rectangles whose sides are split into 1..8 pieces, outlines "
+        "of random sets of grid cells, polylines with repeated steps, soups; vectors with components 0 or +-2^k, dyadic "
+        "positions, boxes with power-of-two sides (every float operation of Segment.RectCollision is exact) - through "
+        "GroupedSegmentsToCollider in construction / GroupSegments / shuffled order (mode G), MeshToCollider, "
+        "BVHToCollider; boxes across a point of a segment, with the point on their boundary, next to it, big, random "
+        "(counter across-axis-aligned-segment = the box strictly straddles an axis-aligned segment). tritrix: pairs of "
+        "dyadic triangles - random, one through a point of the other, exactly one common vertex with the opposite edge "
+        "through the other triangle (one-common-vertex.1 = they meet in a segment), a common edge, identical, co-planar / "
+        "parallel, a vertex on the other's face, axis-aligned; emitted only where rounding cannot decide (exact common "
+        "segment computed with big.Rat by plane clipping: none / a point / longer than 1e-5, no edge of one triangle in "
+        "the plane of the other, not within the documented near-co-planarity tolerance). mtritrix: grid-split boxes, "
+        "tetrahedra, soups through GroupedTrianglesToCollider (given / GroupTriangles order, mode G), MeshToCollider, "
+        "BVHToCollider, query triangles with a corner bit-equal to a mesh vertex. msegx: box meshes and soups of the exact "
+        "family, segments s0 + [0,1]*d aimed so that the hit parameter is -1/2 .. 3 (incl. exactly 0 and 1), through the "
+        "same four hierarchies; mseg2x: the 2-D meshes of rect2x with an axis-aligned or power-of-two-sloped query segment "
+        "(one of the two segments axis-aligned, so the determinant is a power of two). profballx: ProfileCollider over one "
+        "or two rectangles, subdivided rectangles, cell outlines; ball centres off the outline's grid, below / between / "
+        "above the faces, over and beside the solid; radii next to the true distance of the centre from the surface of the "
+        "extrusion and arbitrary, tangent balls skipped. distinct = distinct operation lines; #stat counters give "
         "hits per kind, ray classes, radius classes, parity inside counts, soup query outcomes"
     ),
     trusted=[
         "regenerated, not hand-written: lean/M3d/Gen/Kernels.lean (Go->Lean translator harness/hlib/go2lean, run on the current "
         "source on every check); M3d.KernelsTie.Collide.* re-prove against it that segmentEntersSphere and the 2-D segment collider "
         "(Segment.rayCollision with its near-parallel test and in-place inverse, Segment.Normal, Segment.CircleCollision) are the "
-        "model functions segEntersSphere, seg2Ray, seg2Normal, seg2Circle of the hit and ball-touch theorems",
+        "model functions segEntersSphere, seg2Ray, seg2Normal, seg2Circle of the hit and ball-touch theorems; "
+        "M3d.KernelsTie.Collide.rect2_contains_eq / segment2_segment_eq / segment2_rect_eq re-prove that model2d.Rect.Contains, "
+        "Segment.SegmentCollision and Segment.RectCollision are rect2Contains, seg2Segment, seg2Rect of rect_touches_iff_segment2d",
+        "Triangle.TriangleCollisions (closures, infinities) and joinedMultiCollider (interfaces) are outside the translator's subset: "
+        "their models triTri / findRange / treeRect2 / treeTriTri are hand-written and tied by the tritrix, mtritrix, rect2x correspondence "
+        "(mode G runs the faithful hierarchy); TriangleCollisions' floats are inexact on dyadic data, so only the decision (a segment or "
+        "none; the number of segments) is compared, on cases where the exact intersection (big.Rat in the harness) leaves no room for "
+        "rounding, and the reported end points are validated against the exact ones with a 1e-7 tolerance (PropFail "
+        "c07:triangle-touches/*/segment-not-the-intersection)",
+        "profile_ball_touches_iff assumes that the 2-D outline bounds the 2-D solid (a segment from a point of the solid to a point "
+        "outside it meets the outline) - a Jordan-type property of model2d.ColliderSolid's even-odd containment that is a hypothesis, "
+        "not a theorem; Solid2D.Contains is modelled in the driver as in profx (bounds + even-odd along the fixed direction)",
+        "box queries: 3-D Triangle.RectCollision / Segment.RectCollision are not modelled (the 3-D bounds test is: rect_bounds_test_iff_3d, joined_tree_any); they are compared "
+        "with an exact big.Rat clipping in the harness (PropFail c07:ball-touches/mesh-rect, now also on grid-split box meshes whose inner "
+        "nodes have bounding boxes without volume); the 2-D mesh RectCollision on arbitrary dyadic segments likewise (c07:box-touches/mesh2d)",
         "modelled, not verified: float64 arithmetic as exact field arithmetic in the theorems; the bits kinds tie the same generic definitions to the Go code operation by operation on arbitrary doubles",
         "math.Sqrt is the parameter sqrtF (hypothesis SqrtOK: non-negative and squares back); the 1e-8 of the parallel tests is the parameter eps, the 1e-5 of safeNormal the parameter tol; the near-parallel rejection appears as an explicit condition in triangle_hit_iff / segment2d_hit_iff / plane_circle_hit and in the hypotheses of the parity theorems",
         "Torus intersections go through the quartic branch of numerical.Polynomial.IterRealRoots: not modelled; only the contract (obs) and tolerance residuals labelled validation: are checked for the hit parameters. (Cone.RayCollisions is modelled completely: its side polynomial has degree <= 2.)",
@@ -86,7 +136,23 @@ PROP = dict(
         "exactly at Rat on dyadic data (Rect, Triangle, Segment, triangle soups through the real mesh colliders, "
         "ProfileCollider, ball/segment queries, ball/circle queries against TransformCollider over triangles, meshes, "
         "spheres, segments, circles with non-unit and negative scale factors, ColliderContains); the contract predicate "
-        "itself is evaluated on observations of every collider kind."
+        "itself is evaluated on observations of every collider kind. Box and triangle queries: model2d.Segment.RectCollision "
+        "answers touching iff some point of the segment lies in the closed box; the bounds test of "
+        "joinedMultiCollider.RectCollision passes iff the query box and the node's bounding box share a point (degenerate "
+        "overlaps included), and the 2-D mesh colliders - any hierarchy - answer touching iff some segment has a point in the "
+        "box; Triangle.TriangleCollisions' interval computation (line of the common points of the two planes, "
+        "findContainedRange with its infinite bounds and early exits, intersection of the ranges) yields exactly the segment of "
+        "common points of the two closed triangles, or nothing when they share at most one point - also for triangles with one "
+        "common vertex -, triangles sharing an edge meet in that edge only, parallel planes are always rejected by the "
+        "co-planarity test, and the 3-D mesh colliders return the concatenation of their triangles' answers; "
+        "Triangle.SegmentCollision and model2d.Segment.SegmentCollision answer touching iff the segment has a point "
+        "(parameter in [0,1]) on the triangle / the other segment, the bounds test of joinedMultiCollider.SegmentCollision "
+        "(rayCollisionWithBounds) admits every segment with a point inside the bounds, and the 2-D and 3-D mesh colliders' "
+        "SegmentCollision is the disjunction over their primitives - whatever the hierarchy; profileCollider.SphereCollision "
+        "answers touching iff the open ball meets a wall or one of the two faces of the extrusion (given that the outline "
+        "bounds the 2-D solid). Tied at Rat to the "
+        "real mesh colliders (rect2x, msegx, mseg2x exact on power-of-two data incl. flat inner nodes; profballx; tritrix/mtritrix on the decision where "
+        "rounding cannot decide) and through the regenerated kernels (Segment.RectCollision, SegmentCollision, Rect.Contains)."
     ),
     level_note=(
         "Proved about lean/M3d/Model/Collide*.lean over ordered fields, not floats. Torus root finding and SolidCollider "
